@@ -35,3 +35,23 @@ Definition fxp_bitwise (b : bop) (fx : fmt) (cx : Z) (y_is_fxp : bool) (nwy cy :
   else set_val_real fx r o true (raw_arr fx (bitwise_raw b fx cx cy)) VInt.
 Definition fxp_invert (fx : fmt) (cx : Z) (r : rmode) (o : omode) : outcome wres :=
   set_val_real fx r o true (raw_arr fx (invert_raw fx cx)) VInt.
+
+(* ---- arrays of codes (fix b8389df: two array operands are paired element by element, broadcast like NumPy arrays) ---- *)
+(* storage array for a list of raw integers of format f *)
+Definition raw_arr_list (f : fmt) (zs : list Z) : arr :=
+  if (64 <=? nw f) || negb (forallb fits_i64 zs) then AObj (map NI zs) else AI64 zs.
+(* np.broadcast_arrays on two 1-D operands: equal lengths, or one of them a single element *)
+Definition pair_codes (xs ys : list Z) : option (list (Z * Z)) :=
+  if Nat.eqb (length xs) (length ys) then Some (combine xs ys)
+  else match xs, ys with
+       | [x], _ => Some (map (fun y => (x, y)) ys)
+       | _, [y] => Some (map (fun x => (x, y)) xs)
+       | _, _ => None end.
+Definition fxp_bitwise_arr (b : bop) (fx : fmt) (cxs : list Z) (y_is_fxp : bool) (nwy : Z) (cys : list Z) (r : rmode) (o : omode)
+  : outcome wres :=
+  if y_is_fxp && negb (nw fx =? nwy) then Exc ValueError
+  else match pair_codes cxs cys with
+       | Some ps => set_val_real fx r o true (raw_arr_list fx (map (fun p => bitwise_raw b fx (fst p) (snd p)) ps)) VInt
+       | None => Exc ValueError end.
+Definition fxp_invert_arr (fx : fmt) (cxs : list Z) (r : rmode) (o : omode) : outcome wres :=
+  set_val_real fx r o true (raw_arr_list fx (map (invert_raw fx) cxs)) VInt.
